@@ -124,6 +124,45 @@ func Load(o LoadOpts) (*World, error) {
 		w.SPkgs[path] = sp
 	}
 	w.AllFns = ssautil.AllFunctions(prog)
+	// AllFunctions reaches methods only through types that are converted to an interface somewhere in the program. The
+	// library is analysed without a client, so the methods of a type that only clients convert (extension.TaskList,
+	// extension.GFM, …) or call are added here: every declared method of every named type of the module's packages, and
+	// whatever they reference.
+	var addFn func(fn *ssa.Function)
+	addFn = func(fn *ssa.Function) {
+		if fn == nil || w.AllFns[fn] {
+			return
+		}
+		w.AllFns[fn] = true
+		for _, a := range fn.AnonFuncs {
+			addFn(a)
+		}
+		for _, b := range fn.Blocks {
+			for _, ins := range b.Instrs {
+				for _, op := range ins.Operands(nil) {
+					if f, ok := (*op).(*ssa.Function); ok {
+						addFn(f)
+					}
+				}
+			}
+		}
+	}
+	for _, p := range w.Pkgs {
+		sc := p.Types.Scope()
+		for _, name := range sc.Names() {
+			tn, ok := sc.Lookup(name).(*types.TypeName)
+			if !ok || tn.IsAlias() {
+				continue
+			}
+			nt, ok := tn.Type().(*types.Named)
+			if !ok || nt.TypeParams().Len() > 0 {
+				continue
+			}
+			for i := 0; i < nt.NumMethods(); i++ {
+				addFn(prog.FuncValue(nt.Method(i)))
+			}
+		}
+	}
 	for fn := range w.AllFns {
 		if w.InModule(fn) && fn.Blocks != nil {
 			w.Funcs = append(w.Funcs, fn)
